@@ -281,6 +281,30 @@ Example C12_websocket_redirect_example :
 Proof. exact ex_ws_redirect. Qed.
 Print Assumptions C12_websocket_redirect_example.
 
+(* the scheme of the build-based redirects: the alias redirect is MapAdapter.build(force_external=True) - ws / wss for a
+   websocket rule, http / https for any other rule, of the security of the scheme the adapter is bound with (http, https,
+   ws, wss; an https request with Upgrade: websocket is bound as wss - pinned): never a downgrade.  The url_scheme argument
+   of MapAdapter.build is not modelled (the router does not pass it). *)
+Theorem C12_alias_redirect_scheme : forall m a meth rule0 vals u,
+  alias_redirect_url m a meth rule0 vals = BOk u ->
+  exists r rest, In r (m_rules m) /\ r_endpoint r = r_endpoint rule0
+    /\ u = (if is_nil (build_scheme a (r_websocket r)) then [] else build_scheme a (r_websocket r) ++ [COLON]) ++ [SLASH; SLASH] ++ rest.
+Proof. exact alias_redirect_scheme. Qed.
+Print Assumptions C12_alias_redirect_scheme.
+
+Theorem C12_build_scheme_table : forall a ws_rule,
+  ((a_scheme a = HTTPS \/ a_scheme a = WSS) -> build_scheme a ws_rule = if ws_rule then WSS else HTTPS)
+  /\ ((a_scheme a = HTTP \/ a_scheme a = WS) -> build_scheme a ws_rule = if ws_rule then WS else HTTP).
+Proof. exact build_scheme_table. Qed.
+Print Assumptions C12_build_scheme_table.
+
+Example C12_wss_alias_example :
+  router_match (mk_map [cx_ws_new; cx_ws_old])
+    {| a_scheme := WSS; a_server := a_server ex_adapter; a_script := [SLASH]; a_subdomain := None; a_query := [] |} [47; 111; 108; 100] GET
+  = RedirectTo (WSS ++ [COLON; SLASH; SLASH] ++ a_server ex_adapter ++ [47; 110; 101; 119]).
+Proof. exact ex_wss_alias. Qed.
+Print Assumptions C12_wss_alias_example.
+
 (* Rule.redirect_to with a string template (C12/Model.v: rt_subst, redirect_to_url, router_match_rt; the callable form is a
    user function and outside the model).  A rule with redirect_to answers with RequestRedirect to exactly the substituted
    target, after the defaults / alias canonicalisation; every other outcome is that of router_match. *)
